@@ -44,12 +44,16 @@ pub enum Step {
     Unlink(String),
     /// A command envelope with a Recon body.
     Cmd(String, String),
+    /// Nothing is sent: the (paused) clock advances by n tenths of the inactivity timeout, so that
+    /// the runtime's tasks can reach their timeouts at different moments.
+    Wait(u32),
 }
 
 impl Step {
     pub fn lane(&self) -> &str {
         match self {
             Step::Link(l) | Step::Sync(l) | Step::Unlink(l) | Step::Cmd(l, _) => l,
+            Step::Wait(_) => "",
         }
     }
 }
@@ -879,12 +883,20 @@ impl World for AsWorld {
                 let r = &mut self.remotes[i];
                 let item = r.queue[r.pos].clone();
                 r.pos += 1;
+                if let Step::Wait(n) = &item {
+                    let n = *n;
+                    r.sent.push((step, item.clone()));
+                    self.script_pos += 1;
+                    self.log(format!("clock advances by {}/10 of the inactivity timeout", n));
+                    tokio::time::advance(INACTIVE_TIMEOUT * n / 10 + Duration::from_millis(1)).await;
+                } else {
                 let path = RelativeAddress::new(NODE, item.lane());
                 let msg: RequestMessage<&str, &[u8]> = match &item {
                     Step::Link(_) => RequestMessage::link(r.id, path),
                     Step::Sync(_) => RequestMessage::sync(r.id, path),
                     Step::Unlink(_) => RequestMessage::unlink(r.id, path),
                     Step::Cmd(_, body) => RequestMessage::command(r.id, path, body.as_bytes()),
+                    Step::Wait(_) => unreachable!(),
                 };
                 let mut buf = BytesMut::new();
                 let mut enc = RawRequestMessageEncoder;
@@ -899,6 +911,7 @@ impl World for AsWorld {
                 r.sent.push((step, item.clone()));
                 self.script_pos += 1;
                 self.log(format!("remote {} -> {:?}", i, item));
+                }
             }
             c if c >= EV_DROP => {
                 let i = (c - EV_DROP) as usize;
